@@ -28,24 +28,27 @@
 (*                 builtin table, ABC automaton, item rules, recursion      *)
 (*                 guard; result in the Semantics hint grammar              *)
 (*                                                                          *)
-(* Design selects the transcription:                                        *)
-(*   "faithful"  beartype 0.23.0 as read in beartype/bite/**                *)
-(*   "intended"  the design under which the property of C20 holds (one      *)
-(*               named repair per root cause, see RC_* below)               *)
-(*   "mut_*"     spec mutants of the intended design (non-vacuity)          *)
+(* Legacy selects the transcription: the set of root causes (RC_* below)    *)
+(* that are switched ON.                                                    *)
+(*   all six   = FAITHFUL to beartype 0.23.0 as read in beartype/bite/**    *)
+(*   {}        = the INTENDED design, under which the property of C20 holds *)
+(*               (one named repair per root cause)                          *)
+(* SpecMut selects a spec mutant of the intended design (non-vacuity).      *)
 (***************************************************************************)
 EXTENDS Semantics, SequencesExt
 
-CONSTANT Design
+CONSTANTS Legacy, SpecMut
 
-Faithful == Design = "faithful"
+AllLegacy == {"set_node", "unsubscriptable", "meta_dunder", "marker", "duck", "counter_val"}
+ASSUME Legacy \subseteq AllLegacy
+ASSUME SpecMut \in {"none", "no_guard", "union_drops_last", "abc_too_narrow"}
 \* the named repairs of the intended design (each is one root cause of the faithful one)
-RC_SetNode    == Faithful      \* the Set node of the automaton carries the BUILTIN set as hint factory
-RC_Unsubscr   == Faithful      \* unsubscriptable subclasses of builtin views (odict_keys) are subscripted
-RC_MetaDunder == Faithful      \* dunder methods are looked up on the class object incl. metaclass attributes
-RC_Marker     == Faithful      \* the recursion placeholder is an ordinary class that rejects every object
-RC_Duck       == Faithful      \* the automaton's ABC is trusted although the object is not an instance of it
-RC_CounterVal == Faithful      \* a Counter is always inferred as Counter[key] (= values int), whatever its values
+RC_SetNode    == "set_node" \in Legacy      \* the Set node of the automaton carries the BUILTIN set as hint factory
+RC_Unsubscr   == "unsubscriptable" \in Legacy      \* unsubscriptable subclasses of builtin views (odict_keys) are subscripted
+RC_MetaDunder == "meta_dunder" \in Legacy      \* dunder methods are looked up on the class object incl. metaclass attributes
+RC_Marker     == "marker" \in Legacy      \* the recursion placeholder is an ordinary class that rejects every object
+RC_Duck       == "duck" \in Legacy      \* the automaton's ABC is trusted although the object is not an instance of it
+RC_CounterVal == "counter_val" \in Legacy      \* a Counter is always inferred as Counter[key] (= values int), whatever its values
 
 (* ---------------------------------------------------------- extended classes *)
 XSeqCls  == {"range", "UMSeq", "MyList", "DSeq"}
@@ -253,6 +256,8 @@ InstMethods(c) ==
     [] c = "UCont"  -> {"__contains__"}
     [] c = "URev"   -> {"__iter__", "__reversed__"}
     [] c = "UItor"  -> {"__iter__", "__next__"}
+    [] c = "bool"   -> {"__and__", "__or__", "__xor__", "__sub__"} \cup CmpG       \* no start label among them
+    [] c = "NoneType" -> CmpG
     [] OTHER -> {}
 \* provided by the METACLASS only, but listed by dir(cls)  (EnumType.__dir__)
 MetaMethods(c) == IF c = "E" THEN {"__contains__", "__getitem__", "__iter__", "__len__"} ELSE {}
@@ -284,7 +289,9 @@ BuiltinFactory(c) == BuiltinFacTab[c]
 \* factory[child]
 Mk1(f, h) == IF h.k \in {"exc", "diverge"} THEN h
              ELSE IF Unsubscriptable(f) THEN HExc("TypeError")       \* type 'odict_keys' is not subscriptable
-             ELSE IF f \in {"tuple", "list", "MyList", "Sequence", "MutableSequence"} THEN HSeq(f, h)
+             ELSE IF f = "MyList" THEN H("shallow", f, <<h>>, <<>>)   \* HintSignPep585BuiltinSubscriptedUnknown: checked as
+                                                                      \* isinstance(x, MyList) only, the child is ignored
+             ELSE IF f \in {"tuple", "list", "Sequence", "MutableSequence"} THEN HSeq(f, h)
              ELSE HReit(f, h)
 IntOnly(h) == h \in {HCls("int"), HCls("bool")}
               \/ (h.k = "union" /\ \A i \in DOMAIN h.a : h.a[i] \in {HCls("int"), HCls("bool")})
@@ -322,17 +329,20 @@ InfItems(x, f, isMap, d, st, r) ==
     ELSE LET hi == IF n = 1 \/ st = "O1"
                    THEN Inf(its[IF InstX(x, "Sequence") THEN Pick(n, r, Conf0) ELSE 1], d + 1, st, r)
                    ELSE UnionOf({ Inf(its[i], d + 1, st, r) :
-                                    i \in 1..(IF Design = "mut_union_drops_last" THEN n - 1 ELSE n) })
+                                    i \in 1..(IF SpecMut = "union_drops_last" THEN n - 1 ELSE n) })
          IN IF hi = ObjH THEN HCls(f) ELSE Mk1(f, hi)
 
+\* the automaton's verdict for a class.  intended: the deepest node on the path whose ABC the instances really
+\* are instances of ("start" = no protocol)
+AbcNodeOf(c) ==
+  LET path == PathTab[c]
+      ok   == { i \in 2..Len(path) : Factory(path[i]) \in InstTab[c] }
+  IN IF RC_Duck THEN Last(path) ELSE IF ok = {} THEN "start" ELSE path[CHOOSE i \in ok : \A j \in ok : j <= i]
 \* infer_hint_collections_abc: narrowest ABC by the automaton, wrapped in Annotated[..., IsInstance[type(x)]]
 InfAbc(x, d, st, r) ==
   LET c    == x.cls
-      path == PathTab[c]
-      \* intended: the deepest node on the path whose ABC the object really is an instance of
-      ok   == { i \in 2..Len(path) : InstX(x, Factory(path[i])) }
-      node == IF RC_Duck THEN Last(path) ELSE IF ok = {} THEN "start" ELSE path[CHOOSE i \in ok : \A j \in ok : j <= i]
-      f    == Factory(IF Design = "mut_abc_too_narrow" /\ node = "Collection" THEN "Sequence" ELSE node)
+      node == AbcNodeOf(c)
+      f    == Factory(IF SpecMut = "abc_too_narrow" /\ node = "Collection" THEN "Sequence" ELSE node)
   IN IF node = "start" THEN HCls(c)                                    \* no protocol: fall back to type(x)
      ELSE LET inner == IF InstX(x, "Collection")
                        THEN InfItems(x, f, f \in {"Mapping", "MutableMapping"}, d, st, r)
@@ -340,7 +350,7 @@ InfAbc(x, d, st, r) ==
           IN IF inner.k \in {"exc", "diverge"} THEN inner ELSE HAnn(inner, <<VInst(c)>>)
 
 Inf(x, d, st, r) ==
-  IF x.k = "back" THEN (IF Design = "mut_no_guard" THEN HDiverge ELSE HRec)   \* id(obj) in seen: warn, placeholder
+  IF x.k = "back" THEN (IF SpecMut = "no_guard" THEN HDiverge ELSE HRec)   \* id(obj) in seen: warn, placeholder
   ELSE IF x.k = "type" THEN HType(HCls(x.cls))                               \* isinstance(obj, type)
   ELSE IF x.cls = "func" THEN HShallow("Callable")                          \* callable(obj)
   ELSE IF x.cls = "NoneType" THEN HCls("NoneType")                           \* None is a PEP 484 hint: returned as is
@@ -351,6 +361,16 @@ Inf(x, d, st, r) ==
 
 \* top-level call
 Infer(x, st, r) == Inf(x, 0, st, r)
+
+\* mappings inferred through the mapping rule have keys AND values visited; any other mapping only its keys
+MapInferred(c) == IF BuiltinFactory(c) # "" THEN "Mapping" \in InstTab[c]
+                  ELSE AbcNodeOf(c) \in {"Mapping", "MutableMapping"}
+RECURSIVE VisBack(_)
+\* a back-reference sits at a position the full (On) inference visits
+VisBack(x) == \/ x.k = "back"
+              \/ x.k = "cont" /\ \E i \in DOMAIN x.items : VisBack(x.items[i])
+              \/ x.k = "map" /\ \E i \in DOMAIN x.items :
+                                   VisBack(x.items[i].key) \/ (MapInferred(x.cls) /\ VisBack(x.items[i].val))
 
 RECURSIVE HasNode(_, _), HDepth(_), HasMarker(_)
 HasNode(h, k) == h.k = k \/ \E i \in DOMAIN h.a : HasNode(h.a[i], k)
